@@ -2,66 +2,38 @@
 """
 Re-evaluate the corpus of behaviour-preserving refactorings under /verif/neutral against the current
 checks:  reeval_neutral.py [id ...]
-Every patch is applied (three-way if its context moved) in a scratch worktree of /repo's HEAD that is
-created under /tmp and removed at the end; all 15 quick checks must exit 0 on it.  Exit 1 when any
-check raises an alarm (exit 1) or refuses (exit 2) on a refactoring.
+Every patch is applied (three-way if its context moved) in a scratch worktree of /repo's HEAD (a pool of
+eight under /tmp, removed at the end); all 15 quick rule sets must stay silent on it.  Exit 1 when any
+check raises an alarm or refuses on a refactoring.
 """
 import os
-import subprocess
 import sys
-import tempfile
-from concurrent.futures import ThreadPoolExecutor
 
-VERIF = os.path.dirname(os.path.dirname(os.path.abspath(__file__)))
+sys.path.insert(0, os.path.dirname(os.path.abspath(__file__)))
+from _corpus import VERIF, evaluate  # noqa: E402
+
 CORPUS = os.path.join(VERIF, "neutral")
-PROPS = ["C01", "C02", "C04", "C07", "C10", "C11", "C12", "C13", "C14", "C15", "C16", "C17", "C18", "C19", "C20"]
-
-
-def run(cmd, cwd=None, env=None):
-    proc = subprocess.run(cmd, cwd=cwd, env=env, capture_output=True, text=True)
-    return proc.returncode, proc.stdout + proc.stderr
-
-
-def check(prop, worktree):
-    env = dict(os.environ, VERIF_REPO=worktree, VERIF_EVIDENCE_DIR=tempfile.mkdtemp(prefix="neutral-ev-"))
-    code, out = run(["/venv/bin/python", os.path.join(VERIF, "check.py"), prop], cwd=VERIF, env=env)
-    return prop, code, [l for l in out.splitlines() if l.startswith("  R") or l.startswith("ANALYSIS-ERROR")]
 
 
 def main():
     wanted = sys.argv[1:]
-    worktree = tempfile.mkdtemp(prefix="reneutral-", dir="/tmp")
-    os.rmdir(worktree)
-    code, out = run(["git", "-C", "/repo", "worktree", "add", "--detach", worktree, "HEAD"])
-    if code != 0:
-        print(out)
-        return 2
+    patches = [(ident, os.path.join(CORPUS, ident, "patch.diff")) for ident in sorted(os.listdir(CORPUS))
+               if os.path.exists(os.path.join(CORPUS, ident, "patch.diff")) and (not wanted or ident in wanted)]
+    results = evaluate(patches)
     problems = 0
-    try:
-        for ident in sorted(os.listdir(CORPUS)):
-            patch = os.path.join(CORPUS, ident, "patch.diff")
-            if not os.path.exists(patch) or (wanted and ident not in wanted):
-                continue
-            run(["git", "checkout", "--", "."], cwd=worktree)
-            run(["git", "clean", "-fdq"], cwd=worktree)
-            code, out = run(["git", "apply", patch], cwd=worktree)
-            if code != 0:
-                code, out = run(["git", "apply", "--3way", patch], cwd=worktree)
-                run(["git", "reset", "-q"], cwd=worktree)
-            if code != 0:
-                run(["git", "reset", "-q", "--hard"], cwd=worktree)
-                print(f"{ident}: patch does not apply to the current tree")
-                continue
-            with ThreadPoolExecutor(max_workers=15) as pool:
-                results = list(pool.map(lambda p: check(p, worktree), PROPS))
-            bad = [(p, c, l) for p, c, l in results if c != 0]
-            print(f"{ident}: {'silent' if not bad else 'FIRED'}")
-            for prop, code, lines in bad:
-                problems += 1
-                for line in lines[:3]:
-                    print(f"    {prop} exit {code}: {line[:260]}")
-    finally:
-        run(["git", "-C", "/repo", "worktree", "remove", "--force", worktree])
+    for ident, _ in patches:
+        verdicts = results[ident]
+        if verdicts is None:
+            print(f"{ident}: patch does not apply to the current tree")
+            continue
+        bad = {prop: v for prop, v in verdicts.items() if v[0] != "ok"}
+        if len(verdicts) < 15:
+            bad["?"] = ("ANALYSIS-ERROR", "the checker did not report on every property")
+        print(f"{ident}: {'silent' if not bad else 'FIRED'}")
+        for prop, (status, text) in sorted(bad.items()):
+            problems += 1
+            print(f"    {prop} {status}: {text[:260]}")
+    print(f"{len(patches)} refactorings, {problems} alarm(s) / refusal(s)")
     return 1 if problems else 0
 
 
